@@ -468,21 +468,40 @@ def payRoyalties (s : St) : List (Nat × Int) → Except Panic St
     | .error p => .error p
     | .ok s1 => payRoyalties (emit s1 (.deposit v a)) rest
 
+/-- what a lock pays: contingent locks only on success, otherwise `min(locked, required)` -/
+def payAmount (success : Bool) (l : Lock) (required : Int) : Int :=
+  if l.contingent && !success then 0 else min l.amt required
+
 /-- the loop over `locked_fees.iter().rev()`; argument = the locks already reversed. Returns the
 state, what is still required and what was collected. -/
 def payLocks (success : Bool) (s : St) (required collected : Int) : List Lock → Except Panic (St × Int × Int)
   | [] => .ok (s, required, collected)
   | l :: rest =>
-    let amount := if l.contingent && !success then 0 else min l.amt required
     -- `locked.take_by_amount(amount).unwrap()`
-    if l.amt < amount then .error .takeFailed else
-    match creditVault s l.vault (l.amt - amount) with
+    if l.amt < payAmount success l required then .error .takeFailed else
+    match creditVault s l.vault (l.amt - payAmount success l required) with
     | .error p => .error p
-    | .ok s1 => payLocks success (emit s1 (.payFee l.vault amount)) (required - amount) (collected + amount) rest
+    | .ok s1 => payLocks success (emit s1 (.payFee l.vault (payAmount success l required)))
+                  (required - payAmount success l required) (collected + payAmount success l required) rest
 
 def sumRoy : List (Nat × Int) → Int
   | [] => 0
   | (_, a) :: rest => a + sumRoy rest
+
+/-- proposer + validator-set share into the rewards vault (`collected_fees.take_by_amount(..).unwrap()`) -/
+def payRewards (s : St) (f : Fin) (collected : Int) : Except Panic St :=
+  if f.toProposer ≠ 0 ∨ f.toValidators ≠ 0 then
+    if collected < f.toProposer + f.toValidators then .error .takeFailed else
+    match creditVault s f.rewardsVault (f.toProposer + f.toValidators) with
+    | .error p => .error p
+    | .ok s' => .ok (emit s' (.deposit f.rewardsVault (f.toProposer + f.toValidators)))
+  else .ok s
+
+/-- the rest of the collected fees is dropped; a Burn event for XRD is emitted when positive -/
+def burnFee (s : St) (f : Fin) : St :=
+  if f.toBurn > 0
+  then emit { s with burned := upd s.burned XRD (s.burned XRD + f.toBurn) } (.burn XRD f.toBurn)
+  else s
 
 def finalize (s : St) (f : Fin) (success : Bool) : Except Panic St :=
   match payRoyalties s f.royalties with
@@ -494,20 +513,9 @@ def finalize (s : St) (f : Fin) (success : Bool) : Except Panic St :=
       if required ≠ 0 then .error .notCovered
       else if collected - sumRoy f.royalties ≠ f.toProposer + f.toValidators + f.toBurn then .error .imbalance
       else
-        let s3 : Except Panic St :=
-          if f.toProposer ≠ 0 ∨ f.toValidators ≠ 0 then
-            if collected < f.toProposer + f.toValidators then .error .takeFailed else
-            match creditVault s2 f.rewardsVault (f.toProposer + f.toValidators) with
-            | .error p => .error p
-            | .ok s' => .ok (emit s' (.deposit f.rewardsVault (f.toProposer + f.toValidators)))
-          else .ok s2
-        match s3 with
+        match payRewards s2 f collected with
         | .error p => .error p
-        | .ok s4 =>
-          let s5 := if f.toBurn > 0
-            then emit { s4 with burned := upd s4.burned XRD (s4.burned XRD + f.toBurn) } (.burn XRD f.toBurn)
-            else s4
-          .ok { s5 with locks := [] }
+        | .ok s4 => .ok { burnFee s4 f with locks := [] }
 
 /-- start of a transaction: nothing in flight, ghost counters cleared -/
 def beginTx (s : St) : St :=
